@@ -281,6 +281,43 @@ def deltaEdits {α : Type} [DecidableEq α] (previous current : List α) : List 
        deleteCount := previous.length - (pre + suf),
        data := (current.drop pre).take (current.length - suf - pre) }]
 
+/-! ### The semantic-token cache: `state/cache.rs`, `semantic_tokens_full`,
+`semantic_tokens_full_delta` -/
+
+/-- The entry of one URI in `ServerState.semantic_tokens` (`SemanticTokensCache { result_id,
+tokens }`) and the global counter `semantic_tokens_id` result ids are drawn from. -/
+structure TokSrv (α : Type) where
+  nextId : Nat
+  cache : Option (Nat × List α)
+deriving Repr, DecidableEq
+
+/-- `SemanticTokensResult::Tokens` / `SemanticTokensFullDeltaResult::{Tokens, TokensDelta}`. -/
+inductive TokAns (α : Type) where
+  | full (id : Nat) (data : List α)
+  | delta (id : Nat) (edits : List (TokEdit α))
+deriving Repr, DecidableEq
+
+/-- `semantic_tokens_full`: `store_semantic_tokens` draws a new id and overwrites the entry. -/
+def tokFull {α : Type} (s : TokSrv α) (cur : List α) : TokSrv α × TokAns α :=
+  ({ nextId := s.nextId + 1, cache := some (s.nextId, cur) }, .full s.nextId cur)
+
+/-- `semantic_tokens_full_delta`: the entry is read, then overwritten with the new result; edits
+are answered only when the cached result id IS the `previous_result_id` of the request
+(`semantic_tokens_delta_edits` always answers `Some`), otherwise the full array. -/
+def tokDelta {α : Type} [DecidableEq α] (s : TokSrv α) (prevId : Nat) (cur : List α) :
+    TokSrv α × TokAns α :=
+  let s' : TokSrv α := { nextId := s.nextId + 1, cache := some (s.nextId, cur) }
+  match s.cache with
+  | some (id, prev) =>
+    if id = prevId then (s', .delta s.nextId (deltaEdits prev cur)) else (s', .full s.nextId cur)
+  | none => (s', .full s.nextId cur)
+
+/-- `remove_document` / `rename_document`: the entry of the URI goes. -/
+def tokForget {α : Type} (s : TokSrv α) : TokSrv α := { s with cache := none }
+
+/-- A token request for another URI: only the global counter moves. -/
+def tokOther {α : Type} (s : TokSrv α) : TokSrv α := { s with nextId := s.nextId + 1 }
+
 /-- Position and length of one semantic token as `semantic_tokens_to_lsp` computes them from the
 token's byte range `[a, b)`: `offset_to_line_col(content, a)` and the UTF-16 length of
 `content[a..b]` (`b - a` when the range is not sliceable). -/
@@ -498,7 +535,57 @@ def applyTokEdits {α : Type} (held : List α) : List (Impl.TokEdit α) → List
   | [] => held
   | e :: es => applyTokEdits (applyTokEdit held e) es
 
+/-- The editor consumes a token answer: a full array replaces what it holds, edits are applied to
+the array it holds; either way it now holds the answer's result id. -/
+def tokConsume {α : Type} (held : Option (Nat × List α)) : Impl.TokAns α → Option (Nat × List α)
+  | .full id data => some (id, data)
+  | .delta id edits => held.map fun h => (id, applyTokEdits h.2 edits)
+
 end Spec
+
+/-! ### Token sessions: the server's cache and the editor's array -/
+
+/-- Server cache of the document's URI and what the editor holds (result id, token array). -/
+structure TokState (α : Type) where
+  srv : Impl.TokSrv α
+  held : Option (Nat × List α)
+
+/-- What can happen in a token session.  `cur` is the token array of the text the document has
+when the request is handled (arbitrary: the text changes between requests); `consume = false` is
+an answer the editor drops — a request cancelled by the next key stroke, or the request of another
+view of the same document: the server has cached the result all the same. -/
+inductive TokEv (α : Type) where
+  | full (cur : List α) (consume : Bool)
+  /-- `semanticTokens/full/delta` naming the result id the editor holds -/
+  | delta (cur : List α) (consume : Bool)
+  /-- the server drops the entry (`remove_document`, `rename_document`) -/
+  | forget
+  /-- a token request for another document -/
+  | other
+
+/-- `none`: not a session an editor produces (a delta request without a held result). -/
+def tokStep {α : Type} [DecidableEq α] (st : TokState α) : TokEv α → Option (TokState α)
+  | .full cur c =>
+    let r := Impl.tokFull st.srv cur
+    some { srv := r.1, held := if c then Spec.tokConsume st.held r.2 else st.held }
+  | .delta cur c =>
+    match st.held with
+    | none => none
+    | some h =>
+      let r := Impl.tokDelta st.srv h.1 cur
+      some { srv := r.1, held := if c then Spec.tokConsume st.held r.2 else st.held }
+  | .forget => some { st with srv := Impl.tokForget st.srv }
+  | .other => some { st with srv := Impl.tokOther st.srv }
+
+def tokRun {α : Type} [DecidableEq α] (st : TokState α) : List (TokEv α) → Option (TokState α)
+  | [] => some st
+  | e :: es =>
+    match tokStep st e with
+    | some st' => tokRun st' es
+    | none => none
+
+/-- A server that has answered nothing, an editor that holds nothing. -/
+def tokInit {α : Type} : TokState α := { srv := { nextId := 0, cache := none }, held := none }
 
 /-- What the editor sends for a change computed on its buffer: the same range, the inserted text
 as characters (JSON string). -/
